@@ -383,6 +383,125 @@ func genFactsPolicy(L *loader) (string, any, []string) {
 		}
 	}
 
+	// ---- special cases in the address code: the "standard" fast path(s). For each function
+	// that can reach StandardUnlockHash we emit the conjuncts (source text, in order) guarding
+	// that return; an absent fast path is the empty list.
+	fastPath := func(fn string) ([]string, bool) {
+		fd := L.funcs[pkg+"."+fn]
+		if fd == nil {
+			fail("types.%s not found", fn)
+			return nil, false
+		}
+		var conj func(e ast.Expr) []string
+		conj = func(e ast.Expr) []string {
+			if p, ok := e.(*ast.ParenExpr); ok {
+				return conj(p.X)
+			}
+			if be, ok := e.(*ast.BinaryExpr); ok && be.Op == token.LAND {
+				return append(conj(be.X), conj(be.Y)...)
+			}
+			return []string{types.ExprString(e)}
+		}
+		returnsStd := func(n ast.Node) bool {
+			found := false
+			ast.Inspect(n, func(x ast.Node) bool {
+				if rs, ok := x.(*ast.ReturnStmt); ok {
+					for _, r := range rs.Results {
+						ast.Inspect(r, func(y ast.Node) bool {
+							if id, ok := y.(*ast.Ident); ok && id.Name == "StandardUnlockHash" {
+								found = true
+							}
+							return true
+						})
+					}
+				}
+				return true
+			})
+			return found
+		}
+		var out []string
+		var walk func(stmts []ast.Stmt, acc []string)
+		walk = func(stmts []ast.Stmt, acc []string) {
+			for _, st := range stmts {
+				ifs, ok := st.(*ast.IfStmt)
+				if !ok || !returnsStd(ifs.Body) {
+					continue
+				}
+				cur := append([]string{}, acc...)
+				if ifs.Init != nil {
+					if as, ok := ifs.Init.(*ast.AssignStmt); ok && len(as.Lhs) == 1 && len(as.Rhs) == 1 {
+						cur = append(cur, types.ExprString(as.Lhs[0])+" := "+types.ExprString(as.Rhs[0]))
+					} else {
+						cur = append(cur, "<init>")
+					}
+				}
+				cur = append(cur, conj(ifs.Cond)...)
+				direct := false
+				for _, b := range ifs.Body.List {
+					if rs, ok := b.(*ast.ReturnStmt); ok && returnsStd(rs) {
+						direct = true
+					}
+				}
+				if direct {
+					out = append(out, cur...)
+				} else {
+					walk(ifs.Body.List, cur)
+				}
+			}
+		}
+		walk(fd.Body.List, nil)
+		return out, true
+	}
+	emitList := func(name string, xs []string, src string) {
+		var q []string
+		for _, x := range xs {
+			q = append(q, fmt.Sprintf("%q", x))
+		}
+		fmt.Fprintf(&sb, "/-- %s -/\ndef %s : List String := [%s]\n", src, name, strings.Join(q, ", "))
+		rep[name] = xs
+	}
+	if xs, ok := fastPath("UnlockConditions.UnlockHash"); ok {
+		emitList("unlockHashFastPath", xs, "UnlockConditions.UnlockHash: conjuncts guarding `return StandardUnlockHash(..)` ([] = no fast path)")
+	}
+	if xs, ok := fastPath("unlockConditionsRoot"); ok {
+		emitList("ucRootFastPath", xs, "unlockConditionsRoot: conjuncts guarding `return StandardUnlockHash(..)` ([] = no fast path)")
+	}
+	if xs, ok := fastPath("SpendPolicy.Address"); ok {
+		emitList("addressFastPath", xs, "SpendPolicy.Address: conjuncts guarding `return StandardUnlockHash(..)` ([] = no fast path)")
+	}
+	// what SpendPolicy.Address returns for a uc policy, and what UnlockHash falls through to
+	lastReturn := func(fn string, inFirstIf bool) string {
+		fd := L.funcs[pkg+"."+fn]
+		if fd == nil {
+			return ""
+		}
+		stmts := fd.Body.List
+		if inFirstIf {
+			for _, st := range stmts {
+				if ifs, ok := st.(*ast.IfStmt); ok {
+					stmts = ifs.Body.List
+					break
+				}
+			}
+		}
+		for i := len(stmts) - 1; i >= 0; i-- {
+			if rs, ok := stmts[i].(*ast.ReturnStmt); ok && len(rs.Results) == 1 {
+				return types.ExprString(rs.Results[0])
+			}
+		}
+		return ""
+	}
+	if r := lastReturn("SpendPolicy.Address", true); r == "" {
+		fail("types.SpendPolicy.Address: return inside the unlock-conditions special case not found")
+	} else {
+		emitStr("addressUcReturn", r, "SpendPolicy.Address: value returned for a PolicyTypeUnlockConditions")
+	}
+	if r := lastReturn("UnlockConditions.UnlockHash", false); r == "" {
+		fail("types.UnlockConditions.UnlockHash: final return not found")
+	} else {
+		emitStr("unlockHashFallthrough", r, "UnlockConditions.UnlockHash: final return")
+	}
+
 	sb.WriteString("\nend Gen.FactsPolicy\n")
 	return sb.String(), rep, errs
 }
